@@ -1203,6 +1203,7 @@ func (s *LoadingStore[K, V]) Get(ctx context.Context, key K) (V, error) {
 		var result setShardResult[K, V]
 		var entryCost int64
 		var entryExpire int64
+		var fromSecondary bool
 		loaded, err, _ := shard.group.Do(key, func() (Loaded[V], error) {
 			// load and store should be atomic
 			shard.mu.Lock()
@@ -1218,10 +1219,16 @@ func (s *LoadingStore[K, V]) Get(ctx context.Context, key K) (V, error) {
 				if err != nil && !errors.As(err, &notFound) {
 					return Loaded[V]{}, err
 				}
+				if ok && expire != 0 && expire <= s.timerwheel.clock.NowNano() {
+					// expired in the secondary cache: drop it and fall back to the loader
+					_ = s.secondaryCache.Delete(key)
+					ok = false
+				}
 				if ok {
 					result = s.setShardWithoutLock(shard, h, key, vs, cost, expire, true)
 					entryCost = cost
 					entryExpire = expire
+					fromSecondary = true
 					return Loaded[V]{Value: vs}, nil
 				}
 			}
@@ -1243,7 +1250,7 @@ func (s *LoadingStore[K, V]) Get(ctx context.Context, key K) (V, error) {
 			return loaded, err
 		})
 		if result.entry != nil {
-			s.toPolicy(result, shard, h, entryCost, entryExpire, true)
+			s.toPolicy(result, shard, h, entryCost, entryExpire, fromSecondary)
 		}
 		return loaded.Value, err
 	} else {
